@@ -328,6 +328,8 @@ from contracts.common import matches_iter  # noqa: E402
 @call_contract("jsonpath.filter:BooleanExpression.cache_tree")
 def _cache_tree_contract(it, fv, args, kwargs):
     """ASSUMED here, proved in C09: the caching copy evaluates exactly as the expression itself."""
+    if getattr(it, "inline_cache_tree", False):
+        return it.run_function(fv, args, kwargs)
     it.assumed.append("contract:BooleanExpression.cache_tree() is observationally the expression itself (C09)")
     return args[0]
 
